@@ -130,6 +130,8 @@ INT = ('Int',)
 def ty_rust(t):
     if t[0] == 'Int':
         return 'i64'
+    if t[0] == 'Pair':
+        return '(i64, i64)'
     if t[0] == 'Opt':
         return 'Option<%s>' % ty_rust(t[1])
     return 'Result<%s, i64>' % ty_rust(t[1])
@@ -140,6 +142,9 @@ def val_rust(t, rng, fail=False):
     if t[0] == 'Int':
         z = rng.randint(0, 9)
         return ([str(z)], '(VInt %d)' % z)
+    if t[0] == 'Pair':
+        a, b = rng.randint(0, 9), rng.randint(0, 9)
+        return (['(', str(a), ',', str(b), ')'], '(VTuple [VInt %d; VInt %d])' % (a, b))
     if t[0] == 'Opt':
         if fail:
             return (['None'], 'VNone')
@@ -361,7 +366,7 @@ class TypedGen:
 MEET_GROUP = [0]
 
 
-def typed_prog(rng, kind, profile, family=None, handler=None, lets=(), meet=False, **kw):
+def typed_prog(rng, kind, profile, family=None, handler=None, lets=(), meet=False, joiner=None, **kw):
     """A typed sync-kind program with the given depth profile.  family: 'Opt' | 'Res' for the step-end types."""
     is_try = kind[1] == '1'
     g = TypedGen(rng, kind, **kw)
@@ -425,6 +430,15 @@ def typed_prog(rng, kind, profile, family=None, handler=None, lets=(), meet=Fals
             fn = 'hd%d_some' % n if fam == 'Opt' else 'hd%d_ok' % n
             h = ('and_then', g.tab.new(lambda i: ([fn, '(', str(i), ')'], wrapc, False)))
     p = Prog(kind, branches, h)
+    p.items = []
+    if joiner:
+        # a logging macro joiner: logs its own evaluation, evaluates the branches it is given (calling them when they are thunks),
+        # logs the call with the values, returns the tuple
+        jid = g.tab.new(lambda i: (['lj%d' % i, '!'], 'KTuple', False))
+        i = g.tab.ops[-1][1]
+        call = '($e)()' if joiner == 'lazy' else '$e'
+        p.items.append('macro_rules! lj%d { ($($e:expr),*) => {{ log("E%d".to_string()); let t = ($(%s),*); log(format!("C%d{}", t.show())); t }} }' % (i, i, call, i))
+        p.options = [('custom_joiner', 'lj%d!' % i)] + ([('lazy_branches', 'true')] if joiner == 'lazy' else [])
     p.table = g.tab
     p.types = [br['t'] for br in brs]
     p.fam = fam
@@ -434,10 +448,10 @@ def typed_prog(rng, kind, profile, family=None, handler=None, lets=(), meet=Fals
 
 # ----------------------------------------------------------------------------- typed programs for the async kinds (ready futures)
 def ty_toks(t):
-    return ty_rust(t).replace('<', ' < ').replace('>', ' > ').replace(',', ' , ').split()
+    return ty_rust(t).replace('<', ' < ').replace('>', ' > ').replace(',', ' , ').replace('(', ' ( ').replace(')', ' ) ').split()
 
 
-def typed_prog_async(rng, kind, profile, handler=None, lets=(), fail_rate=0.15, cap_rate=0.2, wrap_rate=0.2):
+def typed_prog_async(rng, kind, profile, handler=None, lets=(), fail_rate=0.15, cap_rate=0.2, wrap_rate=0.2, boom_rate=0.0, generic_only=False):
     """A typed program for an async kind: every branch value is a (ready) future; operators are the futures-0.3 combinators
     the async macros rely on (map, and_then, inspect, or_else, map_err) plus wrappers over the future's output."""
     is_try = kind[1] == '1'
@@ -446,9 +460,13 @@ def typed_prog_async(rng, kind, profile, handler=None, lets=(), fail_rate=0.15, 
     brs = []
     for b, d in enumerate(profile):
         t = ('Res', INT) if (is_try or rng.random() < 0.5) else rng.choice([('Opt', INT), INT])
+        if generic_only:
+            t = ('Res', ('Pair',))          # a tuple payload: a wrong `.N` projection compiles and silently truncates it
         brs.append(dict(t=t, acts=[], init=None))
 
     def one_op(t):
+        if generic_only:                    # only operators whose operand is generic in the value type
+            return [Act('Inspect', [g.call('ins', [], 'KUnit', blockable=False)])]
         cands = ['map', 'inspect']
         if t[0] == 'Res':
             cands += ['and_then', 'or_else', 'map_err']
@@ -456,6 +474,9 @@ def typed_prog_async(rng, kind, profile, handler=None, lets=(), fail_rate=0.15, 
             cands = ['wrap_map', 'wrap_and_then']
         c = rng.choice(cands)
         T = ty_toks(t)
+        if boom_rate and g.booms == 0 and rng.random() < boom_rate:
+            g.booms += 1
+            return [Act('Map', [g.call(['boom_w', ':', ':', '<'] + T + ['>'], [], 'KPanic', blockable=False)])]
         if c == 'map':
             k = rng.randint(1, 5)
             return [Act('Map', [g.call(['wadd', ':', ':', '<'] + T + ['>'], [znum(k)], '(KWAdd %d)' % k)])]
